@@ -298,6 +298,12 @@ def parseRest (op : String) (toks : List String) : Option (List Nat) :=
 
 end D05
 
+/-- the operator forms taking a `usize` / `i32` shift convert it with `u32::try_from(shift).expect("invalid shift")`
+    (`impl_shl!` / `impl_shr!`): an amount above `u32::MAX` panics before any shifting — in the model AND in what the property
+    demands (the operator panics for every shift ≥ BITS) -/
+def D05.opShiftTooWide (name : String) (r : List Nat) : Bool :=
+  (name = "op_shl" || name = "op_shr") && (match r with | [s, _] => decide (s ≥ 2 ^ 32) | _ => false)
+
 open D05 in
 /-- operations of property C05 (op names start with `c05.`) -/
 def dispatchC05 : Dispatch := fun op args =>
@@ -306,7 +312,7 @@ def dispatchC05 : Dispatch := fun op args =>
     match args with
     | x :: rest =>
       match hexToNat? x, parseRest name rest with
-      | some x, some r => limbOp name x r
+      | some x, some r => if opShiftTooWide name r then some "panic ;; panic" else limbOp name x r
       | _, _ => badArgs
     | _ => badArgs
   | ["c05", "b", name] =>
@@ -324,7 +330,7 @@ def dispatchC05 : Dispatch := fun op args =>
           | _ => none
         else parseRest name rest
       match n.toNat?, hexToNat? x, r with
-      | some n, some x, some r => boxedOp name n x r
+      | some n, some x, some r => if opShiftTooWide name r then some "panic ;; panic" else boxedOp name n x r
       | _, _, _ => badArgs
     | _ => badArgs
   | ["c05", "hook", name] =>
@@ -339,7 +345,8 @@ def dispatchC05 : Dispatch := fun op args =>
     | n :: x :: rest =>
       match n.toNat?, hexToNat? x, parseRest name rest with
       | some n, some x, some r =>
-        if kind = "u" then uintOp name n x r
+        if opShiftTooWide name r then some "panic ;; panic"
+        else if kind = "u" then uintOp name n x r
         else if kind = "i" then intOp name n x r
         else none
       | _, _, _ => badArgs
